@@ -106,7 +106,13 @@ def handle_lemma(n):
         p, tm, tids, ds = protocol(E, w, n)
         t = E.int('reply_tid', 0, 65536)
         reply = E.obj('pymodbus.pdu.ModbusResponse', transaction_id=t, protocol_id=0, unit_id=0, skip_encode=False, check=0, function_code=3)
+        # _handleResponse is the callback the framer invokes from inside its receive loop: frames that arrived in the same segment are still
+        # in the framer's buffer at this point, so "without disturbing pending requests" includes leaving the framer exactly as it is
+        E.set(p.framer, '_buffer', E.bytes('frames_still_buffered', 0, 64))
+        framer_before = E.clone(p.framer)
         E.method(p, '_handleResponse', reply)
+        E.prove('reply:framer-(frames-still-buffered)-untouched', E.same_state(p.framer, framer_before, skip=('decoder', 'client')))
+        E.prove('reply:connection-state-untouched', L.truth(p._connected))
         hit = [k for k in range(n)]
         if len(w.fired) == 0:
             E.prove('reply:nothing-fires-only-for-an-id-that-is-not-pending', L.And(*[tids[k] != t for k in range(n)]) if n else True)
